@@ -1367,11 +1367,24 @@ class _TreeItems:
     def __iter__(self):
         bucket = self.firstbucket
         itertype = self.itertype
-        iterargs = self.iterargs
+        iterargs = tuple(self.iterargs)
+        iterargs += (_marker, _marker, False, False)[len(iterargs):]
+        min, max, excludemin, excludemax = iterargs
+        # An omitted bound that is exclusive drops the smallest (largest)
+        # key of the whole tree, not the first (last) key of every bucket.
+        min_omitted = min is _marker or min is None
+        max_omitted = max is _marker or max is None
+        first = True
         done = 0
         # Note that we don't mind if the first bucket yields no
         # results due to an idiosyncrasy in how range searches are done.
         while bucket is not None:
+            iterargs = (
+                min, max,
+                excludemin and (first or not min_omitted),
+                excludemax and (bucket._next is None or not max_omitted),
+            )
+            first = False
             for k in getattr(bucket, itertype)(*iterargs):
                 yield k
                 done = 0
